@@ -44,7 +44,12 @@ EXPLANATION = ("Theorems about the functions the driver runs (parsimony = runNod
                "polytomy_score_spec / polytomy_score_minimal (the fold over extra children is Fitch on the ladder resolution, any tree "
                "without unary nodes). Weights: score_linear_add, score_linear_smul, score_unweighted. Gaps: gaps_as_missing_monotone, "
                "table_gap_ok, symbolSet_gapRel, gaps_flag_monotone (gaps_as_missing=True never scores higher, end to end through matrixOf). "
-               "No _partial theorem. "
+               "Driver inputs: driver_input_in_domain (parseTree ids distinct, matrixOf matrices satisfy RectM), gaps_flag_monotone_driver "
+               "(no matrix-shape hypotheses left), weights_longer + WOk relaxed to 'at least one weight per character', "
+               "reroot_copy_independent (renumbered/shuffled copies of re-rooted trees, as the harness scores them), "
+               "unrooted_child_order_independent. Not proved: which members an ambiguity code denotes (oracle sweep only); in-place matrix "
+               "edits are resolved by the harness before the model sees them (oracle only); polytomy_score_minimal is the minimum of the "
+               "ladder resolution, a lower bound of the polytomy's own minimum. No _partial theorem. "
                "Hypotheses: distinct node identities; for the value theorems ViewU, RectM (rows of one length), one weight per character.")
 
 # ------------------------------------------------------------------ independent state-set semantics (the oracle's own tables)
@@ -471,6 +476,8 @@ def impl_call(dendropy, tree, tns, call, m=None):
             s = parsimony.fitch_down_pass(tree.postorder_node_iter(), taxon_state_sets_map=tsm, weights=ws,
                                           score_by_character_list=by, **kw)
     except Exception as e:
+        if not is_library_exception(e):
+            raise          # a slip of the harness must end as an infrastructure error, not as a verdict about the library
         return exc_name(e), m
     return "ok %d %s" % (s, ",".join(str(x) for x in by) if by else "-"), m
 
@@ -608,10 +615,16 @@ def run_case(ctx, dendropy, case, pending):
         # --- the state sets the matrix hands to the down pass (correspondence of the alphabet tables + rules; for a
         #     long-lived matrix object: of its current content)
         if (op["alph"] in ALPH_CLASS or op["alph"].startswith("cols:")) and (len(sets_lines) < 3 or (ent is not None and ent["edited"] and len(sets_lines) < 8)):
+            # one COLUMN (one character, hence one alphabet) over all taxa, compared up to a renumbering of that alphabet's
+            # state indexes (which index a state gets is the library's business)
             tsm = m.taxon_state_sets_map(gaps_as_missing=op["gaps"])
-            bit, syms = op["rows"][nscore % len(op["rows"])]
-            sets_lines.append(("sets %s %d =%s" % (op["alph"], 1 if op["gaps"] else 0, syms),
-                               " ".join(str(mask_of(s)) for s in tsm[tns[bit]]) or "-"))
+            nch = len(op["rows"][0][1])
+            if nch:
+                c = nscore % nch
+                desc = col_descs(op["alph"], nch)[c]
+                colsyms = "".join(syms[c] for _, syms in op["rows"])
+                sets_lines.append(("sets cols:%s %d =%s" % (";".join([desc] * len(colsyms)), 1 if op["gaps"] else 0, colsyms),
+                                   set_shape([tsm[tns[bit]][c] for bit, _ in op["rows"]])))
     nontrivial = nscore >= 2 or base is not None
     ctx.case([toks, case["ops"]], nontrivial, sample=case,
              kind=_kind(case.get("how")) or ("matrix edited in place" if nedit else ("history" if nscore >= 2 else "single")))
@@ -629,6 +642,31 @@ def _kind(how):
     return how.split()[0] + ("+shuffle" if how.startswith("reroot") and "shuffle" in how else "")
 
 
+def set_shape(sets):
+    """a list of state sets up to renaming of the states: sizes and all pairwise intersection sizes"""
+    sets = [frozenset(x) for x in sets]
+    return " ".join(str(len(a)) for a in sets) + " / " + " ".join(
+        str(len(sets[i] & sets[j])) for i in range(len(sets)) for j in range(i + 1, len(sets)))
+
+
+def shape_of_masks(text):
+    if text.strip() in ("-", ""):
+        return set_shape([])
+    return set_shape([{i for i in range(int(x).bit_length()) if (int(x) >> i) & 1} for x in text.split()])
+
+
+def is_library_exception(e):
+    """raised from inside the library (innermost frame in $DENDROPY_REPO/src), not by a slip of this harness"""
+    import os
+    import common
+    tb = e.__traceback__
+    last = None
+    while tb is not None:
+        last = tb.tb_frame.f_code.co_filename
+        tb = tb.tb_next
+    return last is not None and os.path.realpath(last).startswith(os.path.realpath(os.path.join(common.REPO, "src")))
+
+
 def flush(ctx, pending):
     outs = ctx.ask([p[0] for p in pending])
     for (line, case, got, opname), m in zip(pending, outs):
@@ -637,6 +675,8 @@ def flush(ctx, pending):
         ctx.compared()
         if opname == "hist":
             m = canon_model(m)
+        elif opname == "sets" and got != "bad-symbol" and m.strip() not in ("bad-symbol", "bad-op"):
+            m = shape_of_masks(m)
         if m.strip() != got.strip():
             ctx.disagree(opname, case if opname == "hist" else {"line": line}, got, m)
     del pending[:]
@@ -894,8 +934,7 @@ def alphabet_sweep(ctx, dendropy, alph, pending):
     for gaps in (True, False):
         tsm = m.taxon_state_sets_map(gaps_as_missing=gaps)
         row = tsm[tns[0]]
-        pending.append(("sets %s %d =%s" % (alph, 1 if gaps else 0, syms), {"sweep": alph},
-                        " ".join(str(mask_of(x)) for x in row), "sets"))
+        pending.append(("sets %s %d =%s" % (alph, 1 if gaps else 0, syms), {"sweep": alph}, set_shape(row), "sets"))
         if alph in ORACLE_ALPHABETS:
             known = set(ORACLE_ALPHABETS[alph][1]) | {"?", "-"}
             # index -> state name, read off the map itself: each fundamental symbol (and the gap when it is a state) must be
@@ -923,7 +962,7 @@ def alphabet_sweep(ctx, dendropy, alph, pending):
 def run(ctx):
     dendropy = __import__("dendropy")
     rng = ctx.rng
-    ctx.set_budget(40, 780)
+    ctx.set_budget(35, 780)
     pending = []
     for alph in sorted(ALPH_CLASS):
         alphabet_sweep(ctx, dendropy, alph, pending)
